@@ -98,6 +98,29 @@ def gen_references(rng):
     return lines + ['op ' + o for o in ops]
 
 
+def gen_stale_controller(rng):
+    """A controller that was taken off its entity (it still knows entity and world) goes on using the
+    shorthands: entity without components, awaiting deletion, populated again under the same identifier,
+    swept - each shorthand still is the World call for the recorded entity."""
+    lines = ['class 0 kind=ctrl bases=- names=- kw=- prio=0', 'class 1 kind=c bases=- names=- kw=- prio=0',
+             'class 2 kind=c bases=1 names=- kw=- prio=0', 'class 3 kind=p bases=- names=- kw=- prio=0']
+    lines += ['obj 0 class=0', 'obj 1 class=1', 'obj 2 class=2', 'obj 3 class=1', 'obj 4 class=3', 'obj 5 class=0']
+    lines.append('ents ' + ','.join(map(str, gen_world.ENTS)))
+    ops = [rng.choice(['create auto 0', 'create auto 0,1', 'create 3 0'])]
+    e = 3 if ops[0].startswith('create 3') else 1
+    pool = [f'remove {e} 0', 'via 0 remove 0', f'delete {e} 1', 'via 0 delete', f'delete {e} 0', f'add {e} 1',
+            f'add {e} 2', f'add {e} 5', 'via 0 add 3', 'via 0 cset 2', 'process 1', 'via 0 comps', 'via 0 has 1',
+            'via 0 get 1', 'via 0 cget 1', 'via 0 remove 1', 'via 0 cdel 1', f'remove {e} 1', 'clear',
+            'create auto 3', 'via 0 pset 4', 'via 0 pget 3', 'via 0 pdel 3']
+    for _ in range(rng.randint(4, 12)):
+        ops.append(rng.choice(pool))
+    ops.append('process 2')
+    out = []
+    for o in ops:
+        out += ['op ' + o, 'op snap']
+    return lines + out
+
+
 def generate(rng, tier):
     n = 250 if tier == 'quick' else 2500
     made = 0
@@ -105,6 +128,10 @@ def generate(rng, tier):
         if made % 5 == 4:
             made += 1
             yield gen_references(rng)
+            continue
+        if made % 5 == 1:
+            made += 1
+            yield gen_stale_controller(rng)
             continue
         if made % 3 == 2:
             # frames: OnUpdateProcessor subclasses, on_update listeners (some raise on a scripted call and
@@ -137,6 +164,11 @@ def oracle(lines, obs):
     if lost:
         return [{'sig': 'C19:controller-lost-its-world', 'what': f'after the program dropped its own reference to '
                  f'the world an attached controller no longer knows it: {lost[0]}'}]
+    moved = [o for o in obs if o.startswith('migrate ') and o.split()[2:] not in (['1', '0'], ['skipped'])]
+    if moved:
+        return [{'sig': 'C19:on_update-relay', 'what': 'an OnUpdateProcessor removed from the world and added to '
+                 f'another one, one frame of the new world: `{moved[0]}` (processor, dt received by a listener '
+                 'of the new world, by a listener of the old world); required 1 and 0'}]
     a, b = project(obs), project(twin)
     if a == b:
         # the frame clause: each process() makes every OnUpdateProcessor relay dt exactly once to every
